@@ -287,6 +287,107 @@ theorem readback_enhances : getDependencies (hdrOf x) IndexTag.RPMTAG_ENHANCENAM
 theorem readback_supplements : getDependencies (hdrOf x) IndexTag.RPMTAG_SUPPLEMENTNAME IndexTag.RPMTAG_SUPPLEMENTFLAGS IndexTag.RPMTAG_SUPPLEMENTVERSION =
     .ok (x.c.supplements.map Dep.toAcc) := readback_deps x (i := 67) (g := fun x => x.c.supplements) rfl rfl rfl
 
+/-! #### the public `Dependency` constructors (`any`, `eq`, `less`, … ; table regenerated from src/rpm/headers/types.rs) -/
+
+/-- what constructor `k` makes: the row's fixed text around the name argument, the row's flags, the row's fixed version
+or else the version argument -/
+theorem dep_ctor_spec {k : Nat} {name version : Bytes} {d : Dep} (h : depCtor k name version = some d) :
+    ∃ s, depCtors[k]? = some s ∧ d.name = s.pre ++ name ++ s.post ∧ d.flags = s.flags
+      ∧ d.version = s.version.getD version := by
+  unfold depCtor at h
+  cases hs : depCtors[k]? with
+  | none => rw [hs] at h; cases h
+  | some s =>
+    rw [hs] at h
+    simp only [Option.map_some, Option.some.injEq] at h
+    subst h
+    exact ⟨s, rfl, rfl, rfl, rfl⟩
+
+/-- every row of the table is a constructor: defined for all arguments -/
+theorem dep_ctor_defined {k : Nat} (hk : k < depCtors.length) (name version : Bytes) :
+    ∃ d, depCtor k name version = some d := by
+  unfold depCtor
+  rw [List.getElem?_eq_getElem hk]
+  exact ⟨_, rfl⟩
+
+/-- the flag values the constructors use are sense bits / context bits of `DependencyFlags`, nothing else -/
+theorem dep_ctor_flags_known : ∀ s ∈ depCtors, s.flags &&& DependencyFlags.all = s.flags := by decide
+
+/-- the constructors the builder itself calls (hand-written in Model/Builder.lean) are rows of the scraped table -/
+theorem builder_ctors_in_table (n v : Bytes) :
+    (∃ k, depCtor k n v = some (rpmlib n v)) ∧ (∃ k, depCtor k n v = some (depEq n v))
+    ∧ (∃ k, depCtor k n v = some (depUser n)) ∧ (∃ k, depCtor k n v = some (depGroup n)) := by
+  have key : ∀ s : DepCtor, s ∈ depCtors → ∃ k, depCtor k n v = some ⟨s.pre ++ n ++ s.post, s.flags, s.version.getD v⟩ := by
+    intro s hs
+    obtain ⟨k, hk, e⟩ := List.getElem_of_mem hs
+    refine ⟨k, ?_⟩
+    unfold depCtor
+    rw [List.getElem?_eq_getElem hk, e]
+    rfl
+  refine ⟨?_, ?_, ?_, ?_⟩
+  · exact key ⟨[114, 112, 109, 108, 105, 98, 40], [41], DependencyFlags.RPMLIB ||| DependencyFlags.EQUAL, none⟩ (by decide)
+  · have := key ⟨[], [], DependencyFlags.EQUAL, none⟩ (by decide)
+    simpa [depEq] using this
+  · exact key ⟨[117, 115, 101, 114, 40], [41], DependencyFlags.SCRIPT_PRE ||| DependencyFlags.SCRIPT_POSTUN, some []⟩ (by decide)
+  · exact key ⟨[103, 114, 111, 117, 112, 40], [41], DependencyFlags.SCRIPT_PRE ||| DependencyFlags.SCRIPT_POSTUN, some []⟩ (by decide)
+
+/-- **specification side**: what each constructor name means in rpm's terms — the RPMSENSE_* bits of rpm's `rpmds.h`
+(LESS 2, GREATER 4, EQUAL 8, SCRIPT_PRE 2⁹, SCRIPT_POST 2¹⁰, SCRIPT_PREUN 2¹¹, SCRIPT_POSTUN 2¹², RPMLIB 2²⁴, CONFIG 2²⁸),
+the `rpmlib(…)` / `config(…)` / `user(…)` / `group(…)` name forms, and no version where none is given. Typed here, not scraped. -/
+def standardCtors : List (String × DepCtor) := [
+  ("any", ⟨[], [], 0, some []⟩),
+  ("eq", ⟨[], [], 8, none⟩),
+  ("less", ⟨[], [], 2, none⟩),
+  ("less_eq", ⟨[], [], 2 + 8, none⟩),
+  ("greater", ⟨[], [], 4, none⟩),
+  ("greater_eq", ⟨[], [], 4 + 8, none⟩),
+  ("rpmlib", ⟨[114, 112, 109, 108, 105, 98, 40], [41], 2 ^ 24 + 8, none⟩),
+  ("config", ⟨[99, 111, 110, 102, 105, 103, 40], [41], 2 ^ 28 + 8, none⟩),
+  ("user", ⟨[117, 115, 101, 114, 40], [41], 2 ^ 9 + 2 ^ 12, some []⟩),
+  ("group", ⟨[103, 114, 111, 117, 112, 40], [41], 2 ^ 9 + 2 ^ 12, some []⟩),
+  ("script_pre", ⟨[], [], 2 ^ 9, some []⟩),
+  ("script_post", ⟨[], [], 2 ^ 10, some []⟩),
+  ("script_preun", ⟨[], [], 2 ^ 11, some []⟩),
+  ("script_postun", ⟨[], [], 2 ^ 12, some []⟩)]
+
+/-- every constructor of the source (table regenerated on every run) that bears one of these names has exactly the standard
+name form, flags and version behaviour (constructors added to the source later are not constrained) -/
+theorem dep_ctor_table_standard : ∀ e ∈ standardCtors, e ∈ depCtorNames.zip depCtors := by decide
+
+/-- **a dependency made by constructor `k` and given to the builder is read back with the wrapped name, the version and
+exactly the table's flags**, under whichever of the eight dependency kinds it was added (composition of `dep_ctor_spec`
+with the eight `readback_*` theorems; for provides / requires / recommends the library's own entries follow) -/
+theorem dep_ctor_flags_readback {k : Nat} {name version : Bytes} {d : Dep} (h : depCtor k name version = some d) :
+    ∃ s, depCtors[k]? = some s ∧
+    let want : Acc.Dependency := ⟨s.pre ++ name ++ s.post, s.flags, s.version.getD version⟩
+    (d ∈ x.c.provides → ∃ l, getDependencies (hdrOf x) IndexTag.RPMTAG_PROVIDENAME IndexTag.RPMTAG_PROVIDEFLAGS IndexTag.RPMTAG_PROVIDEVERSION = .ok l ∧ want ∈ l)
+    ∧ (d ∈ x.c.requires → ∃ l, getDependencies (hdrOf x) IndexTag.RPMTAG_REQUIRENAME IndexTag.RPMTAG_REQUIREFLAGS IndexTag.RPMTAG_REQUIREVERSION = .ok l ∧ want ∈ l)
+    ∧ (d ∈ x.c.conflicts → ∃ l, getDependencies (hdrOf x) IndexTag.RPMTAG_CONFLICTNAME IndexTag.RPMTAG_CONFLICTFLAGS IndexTag.RPMTAG_CONFLICTVERSION = .ok l ∧ want ∈ l)
+    ∧ (d ∈ x.c.obsoletes → ∃ l, getDependencies (hdrOf x) IndexTag.RPMTAG_OBSOLETENAME IndexTag.RPMTAG_OBSOLETEFLAGS IndexTag.RPMTAG_OBSOLETEVERSION = .ok l ∧ want ∈ l)
+    ∧ (d ∈ x.c.recommends → ∃ l, getDependencies (hdrOf x) IndexTag.RPMTAG_RECOMMENDNAME IndexTag.RPMTAG_RECOMMENDFLAGS IndexTag.RPMTAG_RECOMMENDVERSION = .ok l ∧ want ∈ l)
+    ∧ (d ∈ x.c.suggests → ∃ l, getDependencies (hdrOf x) IndexTag.RPMTAG_SUGGESTNAME IndexTag.RPMTAG_SUGGESTFLAGS IndexTag.RPMTAG_SUGGESTVERSION = .ok l ∧ want ∈ l)
+    ∧ (d ∈ x.c.enhances → ∃ l, getDependencies (hdrOf x) IndexTag.RPMTAG_ENHANCENAME IndexTag.RPMTAG_ENHANCEFLAGS IndexTag.RPMTAG_ENHANCEVERSION = .ok l ∧ want ∈ l)
+    ∧ (d ∈ x.c.supplements → ∃ l, getDependencies (hdrOf x) IndexTag.RPMTAG_SUPPLEMENTNAME IndexTag.RPMTAG_SUPPLEMENTFLAGS IndexTag.RPMTAG_SUPPLEMENTVERSION = .ok l ∧ want ∈ l) := by
+  obtain ⟨s, hs, hn, hf, hv⟩ := dep_ctor_spec h
+  refine ⟨s, hs, ?_⟩
+  have hw : Dep.toAcc d = ⟨s.pre ++ name ++ s.post, s.flags, s.version.getD version⟩ := by
+    simp only [Dep.toAcc, hn, hf, hv]
+  intro want
+  have mem_of : ∀ {l : List Dep}, d ∈ l → want ∈ l.map Dep.toAcc := by
+    intro l hm
+    have := List.mem_map_of_mem (f := Dep.toAcc) hm
+    rw [hw] at this
+    exact this
+  refine ⟨?_, ?_, ?_, ?_, ?_, ?_, ?_, ?_⟩
+  · intro hm; exact ⟨_, (readback_provides x).1, mem_of ((readback_provides x).2.subset hm)⟩
+  · intro hm; exact ⟨_, (readback_requires x).1, mem_of ((readback_requires x).2.subset hm)⟩
+  · intro hm; exact ⟨_, readback_conflicts x, mem_of hm⟩
+  · intro hm; exact ⟨_, readback_obsoletes x, mem_of hm⟩
+  · intro hm; exact ⟨_, (readback_recommends x).1, mem_of ((readback_recommends x).2.subset hm)⟩
+  · intro hm; exact ⟨_, readback_suggests x, mem_of hm⟩
+  · intro hm; exact ⟨_, readback_enhances x, mem_of hm⟩
+  · intro hm; exact ⟨_, readback_supplements x, mem_of hm⟩
+
 /-! #### changelog -/
 theorem zip3_changelog (l : List (Bytes × Bytes × Nat)) :
     (zip3 (l.map (·.1)) (l.map (·.2.2)) (l.map (·.2.1))).map (fun (n, t, d) => (⟨n, t, d⟩ : Acc.Changelog)) =
@@ -616,5 +717,29 @@ example : ∃ p', parsePackage (writePackage ⟨⟨leadNew sampleCfg2.name, from
     ∧ getFileEntries p'.md.signature p'.md.header = .ok (sampleCfg2.files.map (entryOf sampleCtx2)) :=
   readback_file_entries_reparsed sample2_valid sample2_sig_ok
     (signatureHeader_no_ima [] (some [97]) (fun _ h => by cases h)) [1, 2, 3] (by decide) (by decide)
+
+/-! ### non-vacuity for the `Dependency` constructors: some constructor makes `w <= 1` (LESS | EQUAL = 10), `config(w) = 1`,
+and the sample configuration's `requires` entry is `Dependency::any("w")`, read back through `dep_ctor_flags_readback` -/
+example : (List.range depCtors.length).any (fun k => depCtor k [119] [49] == some ⟨[119], 10, [49]⟩) = true := by decide
+example : (List.range depCtors.length).any (fun k => depCtor k [119] [49] ==
+    some ⟨[99, 111, 110, 102, 105, 103, 40, 119, 41], 268435464, [49]⟩) = true := by decide
+example : 10 ≤ depCtors.length ∧ depCtorNames.length = depCtors.length := by decide
+example : ∃ k, depCtor k [119] [49] = some ⟨[119], 0, []⟩ ∧
+    ∃ l, getDependencies (hdrOf sampleCtx) IndexTag.RPMTAG_REQUIRENAME IndexTag.RPMTAG_REQUIREFLAGS IndexTag.RPMTAG_REQUIREVERSION = .ok l
+      ∧ (⟨[119], 0, []⟩ : Acc.Dependency) ∈ l := by
+  have hk : ∃ k, depCtor k [119] [49] = some ⟨[119], 0, []⟩ := by
+    have : (List.range depCtors.length).any (fun k => depCtor k [119] [49] == some ⟨[119], 0, []⟩) = true := by decide
+    obtain ⟨k, _, hk⟩ := List.any_eq_true.mp this
+    exact ⟨k, by simpa using hk⟩
+  obtain ⟨k, hk⟩ := hk
+  obtain ⟨s, hs, hall⟩ := dep_ctor_flags_readback sampleCtx hk
+  obtain ⟨s', hs', hn', hf', hv'⟩ := dep_ctor_spec hk
+  have : s' = s := by rw [hs] at hs'; cases hs'; rfl
+  subst this
+  obtain ⟨l, hl, hm⟩ := hall.2.1 (by decide)
+  refine ⟨k, hk, l, hl, ?_⟩
+  simp only at hn' hf' hv'
+  rw [← hn', ← hf', ← hv'] at hm
+  exact hm
 
 end RpmVerif.C06
